@@ -1924,13 +1924,13 @@ class FatFile(io.RawIOBase):
             raise io.UnsupportedOperation()
         mem = memoryview(buf)
         fs = self._get_fs()
-        size = self._get_size()
-        if self._pos > size:
-            # Pad the file to the current position. Note that this does *not*
-            # count towards written
-            self.truncate()
         written = 0
         with fs.mark_dirty():
+            size = self._get_size()
+            if self._pos > size:
+                # Pad the file to the current position. Note that this does
+                # *not* count towards written
+                self.truncate()
             try:
                 while mem:
                     # Alternate between filling a cluster with _write1, and
